@@ -147,6 +147,14 @@ class Result:
         return (self.halt, tuple(self.trace), tuple(self.stack))
 
 
+class _Everything:
+    def __contains__(self, _x):
+        return True
+
+    def add(self, _x):
+        pass
+
+
 def run(block, state, gas_meter=False, shared=None):
     """Execute `block` from `state`.  Returns Result; raises OOG / Underflow.
     `block` may be a generator; if `shared` is given, shared["st"] is the live machine stack, so a generator can
@@ -164,6 +172,10 @@ def run(block, state, gas_meter=False, shared=None):
     msize = [0]
     warm_slots = set()
     warm_addr = set()
+    if gas_meter == "warm":
+        # flat access pricing: every slot and address already accessed (used by C08 to tell a regression that only
+        # exists because a removed access moved its cold surcharge to a later access of the same slot)
+        warm_slots = warm_addr = _Everything()
     gas = [0]
     sto_orig = {}
 
